@@ -92,9 +92,19 @@ fn faults(ctx: &mut Ctx, e: &Envelope, comp: &Envelope, rng: &mut crate::rng::Rn
     let other = Item::Tag(40001, Box::new(Item::Bytes(rng.bytes(32))));
     expect_reject_or_same(ctx, &mk(crc, size, &data, &other), e, "digest-replaced");
     // content Y with declared digest d(E)
-    let y = Envelope::new(format!("Y-{}", rng.next_u64())).add_assertion("k", 1);
+    let yn = rng.next_u64();
+    let y = match rng.below(6) {
+        0 => Envelope::new(format!("Y-{}", yn)),
+        1 => Envelope::new(format!("Y-{}", yn)).wrap_envelope(),
+        2 => Envelope::new_assertion("yk", yn),
+        3 => Envelope::new(KnownValue::new(yn % 97)),
+        4 => Envelope::new(format!("Y-{}", yn)).elide(),
+        _ => Envelope::new(format!("Y-{}", yn)).add_assertion("k", 1),
+    };
     let forged = Compressed::from_uncompressed_data(env_bytes(&y), Some(Digest::from_data(gen::root_digest(e))));
-    if let Ok(f) = Envelope::try_from(forged) {
+    if gen::root_digest(&y) == gen::root_digest(e) {
+        // Y happens to be the original itself: nothing is mis-declared
+    } else if let Ok(f) = Envelope::try_from(forged) {
         expect_reject_or_same(ctx, &env_bytes(&f), e, "misdeclared-content");
     }
     // content that is not an envelope
